@@ -24,8 +24,10 @@ theorem PRel.set {ps : PState} {s : State} (hp : PRel ps s) (t : Bool) {x : PTab
   · exact ⟨hx, hp.b, hs, hp.selfb⟩
   · exact ⟨hp.a, hx, hp.selfa, hs⟩
 
-theorem pinit_rel : PRel pinit init :=
-  ⟨fresh_rel false 500, fresh_rel true 500, rfl, rfl⟩
+theorem pinitWith_rel (ipb dcap : Nat) : PRel (pinitWith ipb dcap) (initWith ipb dcap) :=
+  ⟨fresh_rel false _ _ _, fresh_rel true _ _ _, rfl, rfl⟩
+
+theorem pinit_rel : PRel pinit init := pinitWith_rel 4 500
 
 /-- outcome of one step of both machines: same result, coupled successor states; or both reject -/
 def StepSim (r : Option (PState × Out)) (r' : Option (State × Out)) : Prop :=
@@ -75,11 +77,11 @@ theorem pstep_sim (kind : Kind) (h : Nat → Nat) (ps : PState) (s : State) (op 
   case neg => simp [pstep, step, hav]
   cases op with
   | construct t cap =>
-    simp only [pstep, step, hav, Bool.not_true, Bool.false_eq_true, if_false]
-    exact ⟨by triv, hp.set t (fresh_rel t _) rfl⟩
+    simp only [pstep, step, hav, Bool.not_true, Bool.false_eq_true, if_false, (hp.get t).1.ipb, (hp.get t).1.dcap]
+    exact ⟨by triv, hp.set t (fresh_rel t _ _ _) rfl⟩
   | constructDefault t =>
-    simp only [pstep, step, hav, Bool.not_true, Bool.false_eq_true, if_false]
-    exact ⟨by triv, hp.set t (fresh_rel t _) rfl⟩
+    simp only [pstep, step, hav, Bool.not_true, Bool.false_eq_true, if_false, (hp.get t).1.ipb, (hp.get t).1.dcap]
+    exact ⟨by triv, hp.set t (fresh_rel t _ _ _) rfl⟩
   | copyFrom t =>
     obtain ⟨pt', e1, e2, e3⟩ := (hp.get (!t)).1.copyOf (hs.get (!t)) kind t
     simp only [pstep, step, hav, Bool.not_true, Bool.false_eq_true, if_false, optSet, e1, Option.map_some]
